@@ -118,6 +118,9 @@ def files_of(case, names):
     if case["seed"] % 5 in (0, 1):
         for f in fs:
             f.pop("Qmax")  # ... and its last
+    if case["seed"] % 7 in (0, 3):
+        for f in fs:
+            f["X"] = {"Offset": 0.3}      # a per-file Q offset: the merged curve lives on the shifted Q axis
     if case["invalid"] == "recip":
         bad = ["F(Q)", "S(Q)-1", "[S(Q)-1]", "CS(Q)", "K(Q)", "(Q)", "Q", "", "s(q)", "S(Q) ", "S(Q), Q[S(Q)-1]", "FK(Q), DCS(Q)"]
         fs[0]["ReciprocalFunction"] = bad[case["seed"] % len(bad)]
@@ -283,6 +286,27 @@ def evaluate(case):
             fails.append(f"omitting optional keys {case['absent']} makes pystog_cli raise {e1}; with their defaults supplied it runs")
         elif e1 is None and e2 is None and s1 != s2:
             fails.append(f"omitting optional keys {case['absent']} changes the output ({sorted(set(s1) ^ set(s2)) or 'file contents differ'})")
+        # (e) "driving the library": the written real-space file is what the Transformer gives on the written merged S(Q) — every merged
+        # point, with the settings of the configuration (the 12-decimal text of S(Q) limits the agreement to ~1e-9 of scale)
+        stem = kw.get("Outputs", {}).get("StemName", "out")
+        if e1 is None and stem + ".sq" in s1 and stem + ".gr" in s1:
+            try:
+                qs = np.loadtxt(io.BytesIO(s1[stem + ".sq"]), skiprows=2, ndmin=2)
+                rg = np.loadtxt(io.BytesIO(s1[stem + ".gr"]), skiprows=2, ndmin=2)
+                X = {"g(r)": "g", "G(r)": "G", "GK(r)": "GK"}[kw.get("RealSpaceFunction", "g(r)")]
+                # the initial transform of the workflow is the plain one (C12: lorch off, no low-Q term; those belong to the later steps)
+                tkw = {"rho": kw.get("NumberDensity", 1.0), "<b_coh>^2": kw.get("<b_coh>^2", 1.0), "lorch": False}
+                from pystog import Transformer as _T
+                with np.errstate(all="ignore"):
+                    _, gref, _ = getattr(_T(), f"S_to_{X}")(qs[:, 0], qs[:, 1], rg[:, 0], **tkw)
+                gref = np.asarray(gref, dtype=float)
+                okf = np.isfinite(gref) & np.isfinite(rg[:, 1])
+                scg = max(1.0, float(np.abs(gref[okf]).max(initial=0.0)))
+                if gref.shape != rg[:, 1].shape or np.abs(gref - rg[:, 1])[okf].max(initial=0.0) > 1e-7 * scg:
+                    fails.append(f"{stem}.gr is not Transformer.S_to_{X} of the merged S(Q) written to {stem}.sq with the configured settings "
+                                 f"(max difference {np.abs(gref - rg[:, 1])[okf].max(initial=0.0):.3g}; {len(qs)} merged points up to Q={qs[:, 0].max():.2f})")
+            except Exception as ex:  # noqa: BLE001
+                fails.append(f"could not compare {stem}.gr with the transform of {stem}.sq: {type(ex).__name__}: {str(ex)[:80]}")
         if e3 is None and e1 is not None:
             fails.append(f"pystog_cli raises {e1} where driving the library with the same settings works")
         elif e3 is None and s1 != s3:
